@@ -260,6 +260,12 @@ func setupFile(v6 bool, args ...string) (handler.Handler6, handler.Handler4, err
 			return nil, nil, fmt.Errorf("failed to create watcher: %w", err)
 		}
 
+		// the watch follows the file, not its name: remember which file it is
+		// attached to (looked at before the watch is set: at worst an older
+		// one), to notice when the name is given to another file (rename over
+		// it, as editors and deployment tools do)
+		watched, _ := os.Stat(filename)
+
 		// have file watcher watch over lease file
 		if err = watcher.Add(filename); err != nil {
 			return nil, nil, fmt.Errorf("failed to watch %s: %w", filename, err)
@@ -268,11 +274,30 @@ func setupFile(v6 bool, args ...string) (handler.Handler6, handler.Handler4, err
 		// very simple watcher on the lease file to trigger a refresh on any event
 		// on the file
 		go func() {
-			for range watcher.Events {
+			for {
+				ev, ok := <-watcher.Events
+				if !ok {
+					return
+				}
+				// (a removed file takes its watch with it, and its inode number may be
+				// reused by the file that replaces it)
+				gone := ev.Has(fsnotify.Remove) || ev.Has(fsnotify.Rename)
+				if cur, err := os.Stat(filename); err == nil && (gone || watched == nil || !os.SameFile(watched, cur)) {
+					// watch the new file with a new watcher: adding to a watcher
+					// whose event loop is running is racy in fsnotify
+					if nw, err := fsnotify.NewWatcher(); err != nil {
+						log.Warningf("failed to watch %s again: %s", filename, err)
+					} else if err := nw.Add(filename); err != nil {
+						log.Warningf("failed to watch %s again: %s", filename, err)
+						nw.Close()
+					} else {
+						watcher.Close()
+						watcher, watched = nw, cur
+					}
+				}
 				n, err := state.loadFromFile(v6, filename)
 				if err != nil {
 					log.Warningf("failed to refresh from %s: %s", filename, err)
-
 					continue
 				}
 
